@@ -17,6 +17,7 @@ type RecSample struct {
 	EstAfter int   `json:"estimate_after"`
 	Seq      int64 `json:"seq,omitempty"` // logical timestamp at entry, if a clock is attached
 	SeqOut   int64 `json:"seq_out,omitempty"`
+	GoID     int64 `json:"goid,omitempty"` // goroutine that delivered the sample (recorded when a clock is attached)
 }
 
 // RecLimit is a core.Limit that records exactly what it is handed and what it answers.  It either wraps a
@@ -69,6 +70,7 @@ func (l *RecLimit) OnSample(start int64, rtt int64, inFlight int, didDrop bool) 
 	s := RecSample{Start: start, RTT: rtt, InFlight: inFlight, Drop: didDrop, At: time.Now().UnixNano()}
 	if l.Clock != nil {
 		s.Seq = l.Clock()
+		s.GoID = GoID()
 	}
 	if l.inner != nil {
 		l.inner.OnSample(start, rtt, inFlight, didDrop)
